@@ -302,6 +302,10 @@ def run(c: Check):
         if prd.get(path) != prd["want"]:
             c.violation(key, f"DataPath parameters, {path}: each configuration must read back the content of its own data file; "
                         f"got {prd.get(path)}", dict(desc=dict(nodes=[], actions=[]), root=0, probe="harness/drive_c12data.py", got=prd))
+    if prd.get("save_list") != ["content-0", "content-1"] or prd.get("sources_intact") != prd["want"]:
+        c.violation("C12:datapath:save-over-earlier-copy", "save([a, b], dir) then save([b, a], dir): each loaded configuration must "
+                    f"read its own data and the ORIGINAL data files must be intact; got {prd.get('save_list')} / sources "
+                    f"{prd.get('sources_intact')}", dict(desc=dict(nodes=[], actions=[]), root=0, probe="harness/drive_c12data.py", got=prd))
     if prd.get("instance_types") not in (["PosixPath"], None):
         c.violation("C12:datapath:job-process-observes-str", "the job process observes a DataPath parameter as "
                     + str(prd.get("instance_types")) + " where a Path was configured",
